@@ -28,8 +28,10 @@ Inductive case :=
       [n] upstreams, entry [s], configured concurrency [c]; [ordered]: events were
       applied one after the other (each worker seen to finish before the next
       event) / all at once. Observed: the upstream index of every ExchangeContext
-      call ([calls]), whether every call got the packed query byte for byte in a
-      private buffer, the whole seconds of the upstream deadlines seen from before
+      call ([calls]), whether every call got THIS call's packed query byte for byte
+      in a private buffer ([pay_ok], computed by the driver against qCtx.Q() packed
+      independently; it covers helper goroutines that start only after Exec has
+      returned and the query buffer went back to the pool), the whole seconds of the upstream deadlines seen from before
       the call (floor) and from inside the upstream (ceil), the outcome, and the
       number of worker goroutines still alive at the end. *)
 | CRun (real : bool) (n : nat) (s : sel) (c : Z) (ordered : bool) (calls : list nat) (pay_ok : bool)
